@@ -63,6 +63,29 @@ theorem evalWhile_step {ctx : Ctx} {fr : Frame} {c : Expr} {body : List Stmt} (n
   rw [evalWhile_succ, hc]
   simp only [Res.bind_val, if_true]
 
+/-- looking a key up in a function table from which the keys `bad` were removed -/
+theorem lookup_filter_keys (bad : List String) (l : List (String × FnDecl)) (k : String) :
+    (l.filter fun p => !bad.contains p.1).lookup k = if bad.contains k then none else l.lookup k := by
+  induction l with
+  | nil => simp [List.lookup]
+  | cons a rest ih =>
+    obtain ⟨ak, ad⟩ := a
+    simp only [List.filter_cons]
+    by_cases hb : bad.contains ak = true
+    · simp only [hb, Bool.not_true, Bool.false_eq_true, if_false, ih]
+      by_cases hk : k = ak
+      · subst hk; simp_all
+      · simp_all [List.lookup]
+        have hk' : (k == ak) = false := by simpa using hk
+        simp [hk']
+    · have hb' : bad.contains ak = false := by simpa using hb
+      simp only [hb', Bool.not_false, if_true, List.lookup]
+      by_cases hk : k = ak
+      · subst hk; simp_all
+      · simp_all
+        have hk' : (k == ak) = false := by simpa using hk
+        simp [hk']
+
 /-- a message that is not `ThreadAbort` is another variant of `Message` -/
 theorem value_nonAbort (m : RMsg) (h : m.isAbort = false) :
     ∃ name args, m.value = .enumv name args ∧ name ≠ "Message::ThreadAbort" := by
